@@ -139,7 +139,14 @@ def main():
         dirs = [d for d in seeded_dirs() if not sel or any(s in os.path.basename(d) for s in sel)]
         rows = []
         with ThreadPoolExecutor(max_workers=int(os.environ.get("SEED_JOBS", "3"))) as ex:
-            for d, r in zip(dirs, ex.map(lambda d: check(d, tier), dirs)):
+            def one(d):
+                r = check(d, tier)
+                try:
+                    json.dump(r, open(os.path.join(d, "check_%s.json" % tier), "w"), indent=1)
+                except OSError:
+                    pass
+                return r
+            for d, r in zip(dirs, ex.map(one, dirs)):
                 for p, v in r.items() if isinstance(r, dict) and "error" not in r else []:
                     rows.append((os.path.basename(d), p, "KILLED" if v["killed"] else "SURVIVED rc=%s" % v["rc"], v["wall_s"], v["first"][:150]))
                     print(rows[-1], flush=True)
